@@ -253,9 +253,9 @@ class C26(Check):
             "#objects, variant dimension set)")
     assumptions = ["the reference is wild itself at threads=1 with default grouping (the statement is metamorphic)",
                    "a divergence must reproduce in >= 2 of 20 replays to be reported (OS scheduling is not ownable)"]
-    quick_cases = 160
+    quick_cases = 120
     thorough_cases = 4000
-    max_workers = 8
+    max_workers = 16
     case_timeout = 300
 
     def strategy(self, tier):
